@@ -5,12 +5,17 @@
 //   kind 2: kll_sketch<std::string, std::greater<std::string>>: item v is stored as enc(-v) with enc an
 //           order-preserving fixed-width encoding, so that greater<string> on the stored items is < on v.
 // Only the public API is used (no private members are read).
+// Codec operations (family kllcodec, kinds 0 and 1 only): 20 r -> R = serialize() bytes, F = [stream form identical, advertised
+// size, size, header form ok, stream reader consumed exactly the image]; 21 r r2 -> r := deserialize(serialize(r2));
+// 22 r kind bytes.. -> r := deserialize(bytes).
 #include "common.hpp"
 #include "hooksrc.hpp"
 #include "kll_sketch.hpp"
 #include <cmath>
 #include <limits>
 #include <algorithm>
+#include <sstream>
+#include <cstring>
 using namespace datasketches;
 using vh::I; using vh::Line; using vh::Out;
 
@@ -125,6 +130,29 @@ template<typename K> static void merge_op(Reg& a, Reg& b, bool rvalue) {
   if (rvalue) x.merge(std::move(y)); else x.merge(y);
 }
 
+
+template<typename K> static void ser_op(Reg& reg, Out& o) {
+  typedef typename K::sk_t S;
+  S& s = *Sel<K>::p(reg);
+  auto b = s.serialize();
+  for (auto x : b) o.R((I)x);
+  std::ostringstream os(std::ios::binary); s.serialize(os); const std::string str = os.str();
+  const bool same = str.size() == b.size() && std::memcmp(str.data(), b.data(), b.size()) == 0;
+  o.F(same ? 1 : 0); o.F((I)s.get_serialized_size_bytes()); o.F((I)b.size());
+  auto h = s.serialize(5);
+  bool hok = h.size() == b.size() + 5;
+  for (size_t i = 0; hok && i < 5; ++i) hok = h[i] == 0;
+  for (size_t i = 0; hok && i < b.size(); ++i) hok = h[i + 5] == b[i];
+  o.F(hok ? 1 : 0);
+  std::istringstream is(str + "XYZ", std::ios::binary);
+  S d = S::deserialize(is);
+  o.F(((size_t)is.tellg() == str.size() && d.get_n() == s.get_n()) ? 1 : 0);
+}
+template<typename K> static void deser_op(Reg& dst, const uint8_t* p, size_t n) {
+  typedef typename K::sk_t S;
+  Sel<K>::p(dst).reset(new S(S::deserialize(p, n)));
+}
+
 static void handler(const Line& t, Out& o) {
   vh::install_source(o);
   if (vh::source_op(t, o)) return;
@@ -168,6 +196,24 @@ static void handler(const Line& t, Out& o) {
     if (b.kind == 0) g.s0.reset(new K0::sk_t(*b.s0));
     else if (b.kind == 1) g.s1.reset(new K1::sk_t(*b.s1));
     else g.s2.reset(new K2::sk_t(*b.s2));
+    regs[(long)t.at(1)] = std::move(g);
+    o.R(1); break; }
+  case 20: { // serialize
+    Reg& g = get(t.at(1));
+    if (g.kind == 0) ser_op<K0>(g, o); else if (g.kind == 1) ser_op<K1>(g, o); else throw std::invalid_argument("codec: kind");
+    break; }
+  case 21: { // r := deserialize(serialize(r2))
+    Reg& b = get(t.at(2)); Reg g; g.kind = b.kind;
+    if (b.kind == 0) { auto v = b.s0->serialize(); deser_op<K0>(g, v.data(), v.size()); }
+    else if (b.kind == 1) { auto v = b.s1->serialize(); deser_op<K1>(g, v.data(), v.size()); }
+    else throw std::invalid_argument("codec: kind");
+    regs[(long)t.at(1)] = std::move(g);
+    o.R(1); break; }
+  case 22: { // r := deserialize(bytes) as kind
+    int kind = (int)t.at(2); Reg g; g.kind = kind;
+    std::vector<uint8_t> v; for (size_t i = 3; i < t.size(); ++i) v.push_back((uint8_t)t[i]);
+    if (kind == 0) deser_op<K0>(g, v.data(), v.size()); else if (kind == 1) deser_op<K1>(g, v.data(), v.size());
+    else throw std::invalid_argument("codec: kind");
     regs[(long)t.at(1)] = std::move(g);
     o.R(1); break; }
   case 97: o.R(1); o.F((I)vh::source().scripted.size()); break;
